@@ -67,6 +67,7 @@ type c16Key struct {
 	seed, info []byte
 	raw        *big.Int // when non-nil: the key is this scalar (UnmarshalBinary), not derived
 	rawBytes   []byte   // when non-nil: the key is this encoded scalar
+	gen        bool     // GenerateKey from a deterministic stream
 }
 
 func c16Keys(g verifc16.Grp, seed int64) []c16Key {
@@ -82,14 +83,18 @@ func c16Keys(g verifc16.Grp, seed int64) []c16Key {
 			out = append(out, c16Key{name: fmt.Sprintf("derive(%s,%q)", names[i], inf), seed: s, info: []byte(inf)})
 		}
 	}
-	out = append(out, c16Key{name: "k=1", raw: big.NewInt(1)}, c16Key{name: "k=n-1", raw: new(big.Int).Sub(g.N, big.NewInt(1))})
+	out = append(out, c16Key{name: "generate(det)", gen: true}, c16Key{name: "k=1", raw: big.NewInt(1)}, c16Key{name: "k=n-1", raw: new(big.Int).Sub(g.N, big.NewInt(1))})
 	return out
 }
 
 func c16NewParty(s c16Suite, mode byte, key c16Key) (*c16Party, error) {
 	p := &c16Party{s: s, mode: mode}
 	var err error
-	if key.raw != nil || key.rawBytes != nil {
+	if key.gen {
+		if p.sk, err = oprf.GenerateKey(s.S, verifmc.NewDetReader("c16-oprf-generate")); err != nil {
+			return nil, err
+		}
+	} else if key.raw != nil || key.rawBytes != nil {
 		p.sk = new(oprf.PrivateKey)
 		enc := key.rawBytes
 		if enc == nil {
@@ -476,7 +481,7 @@ func TestVerifC16_rfc9497(t *testing.T) {
 func TestVerifC16_oprf(t *testing.T) {
 	r := verifmc.Start(t, "C16", "oprf")
 	defer r.Finish()
-	r.Rule("base case = (suite, mode, key in {DeriveKey(3 seeds x 2 infos), k=1, k=n-1}, info in {empty,x,2000x} (POPRF), batch = every sequence of 1..L inputs over {empty,a,200z}, blind vector in 2 disjoint vectors over {1,2,n-1,SEED}); " +
+	r.Rule("base case = (suite, mode, key in {DeriveKey(3 seeds x 2 infos), GenerateKey(deterministic stream), k=1, k=n-1}, info in {empty,x,2000x} (POPRF), batch = every sequence of 1..L inputs over {empty,a,200z}, blind vector in 2 disjoint vectors over {1,2,n-1,SEED}); " +
 		"Finalize must succeed with one output per input, each equal to FullEvaluate of that input and to the reference composition of RFC 9497; VerifyFinalize must accept it and refuse a one-bit-altered output and another input's output; " +
 		"non-trivial = distinct (suite, mode, key, info, batch, blind vector)")
 	suites := c16Suites()
